@@ -43,6 +43,34 @@ CLAIMED = {
    text="Bounded model checking of the proto-compatible configurations: for every catalogue struct whose encoding the options change, under {Arrays+Time}, {Arrays}, {Time}: the output parses with an independent protobuf wire reader (only wire types 0,1,2,5, exact lengths, recursively into message-typed fields, Timestamp fields plain varints), equals the reference encoding for that configuration (so each switch changes only its own fields), round-trips in the same configuration, and a default-mode instance decodes the repeated-field form to the same value.",
    note="Bounds as C01.",
    design="DESIGN.md §4 C12"),
+ "C08": dict(
+   text="Bounded model checking of codec construction: (a) struct types built at run time (vrt.StructOf) whose plenc tag texts are arbitrary byte strings (every byte a free symbol, length <=3 quick / <=4 thorough; 1 and 2 fields, 4 field kinds, tag present or missing) go through the real CodecForTypeRegistry/BuildStructCodec (strings.IndexByte, strconv.Atoi executed from their SSA): no path may panic, and acceptance must coincide with an independent statement of the tag grammar (missing tag, unparsable or negative index, duplicate index, option without codec => error; otherwise a codec). (b) 19 definitions with unsupported kinds/nestings in field, element, map-key/value and pointer-target positions must be rejected with an error (also for pointer-to and slice-of them), a failed recursive build must not leave usable half-built codecs behind, unusual accepted nestings must round-trip, and unexported / '-' fields are neither encoded nor written.",
+   note="Stated bounds: parsed index <= 15 (plenc sizes its index table by the largest index and table sizes are concrete per path); field names are concrete; reflect.StructTag.Get's own parsing of the raw tag literal is stubbed (returns the symbolic text for the key). Natively the same definitions are built with reflect.StructOf.",
+   design="DESIGN.md §4 C08"),
+ "C13": dict(
+   text="Bounded model checking at the Outputter seam: for 31 catalogue types and all values within the C01 bounds, Descriptor.Read over Marshal(v) drives a recording Outputter; the event list must be well nested (i.e. renders as valid JSON by C15) and equal the list the statement prescribes for v (objects keyed by json/field name with omitted fields absent, arrays element for element incl. empty ones, string-keyed maps as objects, other maps as key/value lists, pointers as targets, times as instants, numbers by kind, exact payloads). The descriptor serialised and restored through plenc must drive the identical walk.",
+   note="C13 = (this check) composed with C15 at the Outputter interface; the composition is by construction of the interface, not machine-checked. Outside: descriptors restored through encoding/json; recursive types (known finding under C04: Descriptor() overflows the stack); flat-tagged integer fields (the descriptor carries no width, negative values of narrow flat ints render unsigned - excluded, stated); finite floats only matter at the JSON level (C15).",
+   design="DESIGN.md §4 C13"),
+ "C14": dict(
+   text="(a) Bounded model checking over symbolic definitions: struct types built at run time with json tag texts of arbitrary bytes (<=3) and symbolic index digits: the descriptor has one element per encoded field in declaration order with Index == parsed index, Name == json name before the first comma if non-empty else the Go name, Type matching the kind (8 kinds incl. flat), no ExplicitPresence for plain fields (also asserted inside the C08 tag harnesses). (b) For every non-recursive catalogue type the full descriptor tree equals a reference tree generated from the static type (kind -> field type, pointer/null -> explicit presence, map -> Slice/LogicalTypeMap of Struct/LogicalTypeMapEntry{key=1,value=2} with the map_<K>_<V> type name, time -> Time/Timestamp, flat -> FlatInt, json names) - executed by the engine concretely and compared structurally.",
+   note="Part (b) has no symbolic input: it is a concrete structural comparison run inside the engine and reported as such. Recursive types excluded (known finding).",
+   design="DESIGN.md §4 C14"),
+ "C15": dict(
+   text="Bounded model checking of JSONOutput against an independent RFC 8259 recogniser and string decoder executed symbolically on the produced bytes: arbitrary call trees (depth <=1 quick / <=2 thorough, <=2 children, all container/scalar adjacencies incl. empty containers) with string and member-name payloads of arbitrary bytes (all 256 values in every position, length <=2/3): the output must be exactly one JSON value, its token tree must equal the call tree, every string and name must decode to the input bytes, integers must match their decimal text and floats must parse back to the same bits; after Reset the output equals a new outputter's.",
+   note="Numbers and times take boundary values (MinInt64..MaxUint64, +-0, 1e21, 5e-324, MaxFloat64, float32 analogues); strconv/time formatting is executed from its SSA on those concrete values. Non-finite floats and Raw() are outside the claim.",
+   design="DESIGN.md §4 C15"),
+ "C16": dict(
+   text="Bounded model checking of the JSON-any codecs: value trees over the 8 dynamic kinds (nil, bool, int, float64 bits, string, json.Number, []any, map[string]any; depth <=1 quick / <=2 thorough, width <=2/3, empty keys/strings/containers included) with symbolic scalar payloads round-trip at top level, as struct fields between integers and as unknown fields being skipped; the codec laws (C05) hold for JSONMapCodec/JSONArrayCodec; the Descriptor walk yields the value's events (recording Outputter); decoding arbitrary bytes into JSON-any targets is checked under C04.",
+   note="Integers restricted to one-byte varints in the quick tier (full width thorough). Descriptor-walk harnesses use at most one member per object (member order is the encoder's map iteration order).",
+   design="DESIGN.md §4 C16"),
+ "C17": dict(
+   text="Bounded model checking of registration scoping with a marker codec defined in the harness: for symbolic values, an instance with the marker registered for a type (and under a tag name for another) must use it as value, struct field, pointer target, slice element, map key and map value (bytes compared with a reference containing the marker at exactly those positions), while a plain instance and the package-level default encode the same values with the kind codecs, reject the unknown tag option, are byte-identical to each other and stay unchanged when a third instance with other options/registrations is created between uses; sync.Map is modelled per object, so a shared registry makes the marker visible where it must not be.",
+   note="Sequential only (concurrent registration is C07, not claimed).",
+   design="DESIGN.md §4 C17"),
+ "C19": dict(
+   text="Bounded model checking of interning transparency over sequential histories: 3 (quick) / 4 (thorough) decodes of symbolic strings (length <=2, arbitrary bytes, so equal / different / empty / prefix relations are all reachable through the solver) into a struct with two interned fields and its non-interned twin, all from one reused input buffer that is overwritten with fresh symbols after every decode: interned == plain == encoded, encodings identical with and without the option, and every string returned earlier still equals its value (the copy-on-write table code runs from SSA over the engine's map model); same for an interned null.String.",
+   note="The 'from any number of goroutines' half is not claimed (see C07).",
+   design="DESIGN.md §4 C19"),
  "C18": dict(
    text="Bounded model checking of the real plenccore functions: AppendVarUint/ReadVarUint/SizeVarUint/ZigZag/ZagZig/SizeVarInt/AppendTag/ReadTag/SizeTag are executed symbolically from /repo's SSA with unrestricted 64-bit symbols and compared with independent reference definitions; every assertion is an unsat verdict over all 2^64 values (no sampling). ReadVarUint is compared with a reference decoder on every byte string up to 4 (quick) / 11 (thorough) bytes, Skip on every byte string up to 5 / 8 bytes for every wire type 0..7, including the no-panic, no-over-run and loop-unwinding obligations.",
    note="Trusted: go/ssa lowering, symgo's Go semantics (cross-checked each run by native replay of solver models), z3 unsat answers. binary.Uvarint and math/bits.Len64 are part of the encoding (Uvarint from its SSA, Len64 as its exact definition). Outside the bound: byte strings longer than stated for ReadVarUint/Skip; tag indexes above 2^28 (quick) / 2^60 (thorough).",
